@@ -471,6 +471,24 @@ func TestC07(t *testing.T) {
 					return
 				}
 			}
+			// a doubled negation without parentheses is not a sentence of the documented grammar; where the
+			// parser takes it nevertheless, it has to mean what two negations mean
+			for _, variant := range []string{"NOT NOT (" + cse.text + ")", "--(" + cse.text + ")", "NOT -(" + cse.text + ")", "-NOT (" + cse.text + ")"} {
+				vc, e2, cr := parseGo(variant)
+				if cr != "" {
+					violate("crash", "parser "+cr+" on "+strconv.Quote(variant), true, variant)
+					return
+				}
+				if e2 != nil {
+					st.Count("unparenthesised_double_negation_rejected", 1)
+					continue
+				}
+				st.Count("unparenthesised_double_negation_accepted", 1)
+				if v, _ := evalGo(vc, a); v != base {
+					violate("law", fmt.Sprintf("%q is accepted and evaluates to %v on %v, but %q evaluates to %v: a doubled negation does not cancel", variant, v, a, cse.text, base), true, variant+"\n"+MapStr(a))
+					return
+				}
+			}
 			if len(cse.c.terms) > 1 {
 				// commutativity: reversed term order; De Morgan: NOT(t1 op t2..) vs dual
 				rev := &fCond{op: cse.c.op}
